@@ -286,3 +286,56 @@ package server
 //@ func (*partition).removeGroupSubscriber serves C13
 //@   ghost after call Lock: ghost.active[p][groupID] := (ghost.active[p][groupID] == cancel ? nil : ghost.active[p][groupID])
 //@ callers (*partition).removeGroupSubscriber serves C13: (*partition).newSubscribeLoop
+
+// ---------------------------------------------------------------------------------------------
+// Leadership changes are fenced by epochs and need a quorum of in-sync followers (property C07)
+//@ ghost var curLeader string
+//@ ghost var curEpoch uint64
+//@ ghost var witnessOK bool
+//@ ghost var enough bool
+
+// requests that name a stale leader or epoch never reach the Raft proposal / the failover bookkeeping
+//@ func (*metadataAPI).ShrinkISR serves C07
+//@   requires m != nil && req != nil
+//@   ghost after call GetLeader: ghost.curLeader := ret0
+//@   ghost after call GetLeader: ghost.curEpoch := ret1
+//@   call applyOperation requires [fenced] req.Leader == ghost.curLeader && req.LeaderEpoch == ghost.curEpoch
+//@ func (*metadataAPI).ExpandISR serves C07
+//@   requires m != nil && req != nil
+//@   ghost after call GetLeader: ghost.curLeader := ret0
+//@   ghost after call GetLeader: ghost.curEpoch := ret1
+//@   call applyOperation requires [fenced] req.Leader == ghost.curLeader && req.LeaderEpoch == ghost.curEpoch
+//@ func (*metadataAPI).ReportLeader serves C07
+//@   requires m != nil && req != nil
+//@   ghost after call GetLeader: ghost.curLeader := ret0
+//@   ghost after call GetLeader: ghost.curEpoch := ret1
+//@   ghost after call inISR: ghost.witnessOK := ret0 && arg1 == req.Replica
+//@   call report requires [fenced] req.Leader == ghost.curLeader && req.LeaderEpoch == ghost.curEpoch
+//@   call report requires [witness-is-in-sync-follower] arg2 == req.Replica && ghost.witnessOK && req.Replica != ghost.curLeader
+
+// report: a failover is started only with more witnesses than the quorum, and a started failover
+// forgets the witnesses (they referred to the leader that is being replaced)
+//@ func (*failoverStatus).report serves C07
+//@   ghost after call Quorum: ghost.enough := len(f.witnesses) > ret0
+//@   call Failover requires [more-than-quorum] ghost.enough
+//@   ensures [forgotten-after-failover] ghost.enough ==> len(f.witnesses) == 0
+//@ func (*partitionFailover).Quorum serves C07
+//@   requires p != nil && p.partition != nil
+//@   ensures [half-of-the-followers] len(p.partition.isr) >= 1 ==> result == (len(p.partition.isr) - 1) / 2
+//@ func (*partition).ISRSize serves C07
+//@   requires p != nil
+//@   modifies nothing
+//@   ensures result == len(p.isr)
+//@ func (*partition).inISR serves C07
+//@   requires p != nil
+//@   modifies nothing
+//@   ensures result == (replica in p.isr)
+
+// the new leader is an in-sync replica other than the current leader
+//@ func (*metadataAPI).selectPartitionLeader serves C07
+//@   requires len(replicas) >= 1
+//@   ensures [one-of-the-candidates] exists j int :: 0 <= j && j < len(replicas) && result == old(replicas[j])
+//@ func (*metadataAPI).electNewPartitionLeader serves C07
+//@   requires m != nil && partition != nil
+//@   call selectPartitionLeader requires [candidates-exclude-leader] len(arg1) >= 1 && (forall j int :: 0 <= j && j < len(arg1) ==> arg1[j] != leader)
+//@   loop 1 invariant forall j int :: 0 <= j && j < len(candidates) ==> candidates[j] != leader
